@@ -373,6 +373,55 @@ def atom_args(a: Atom):
     return []
 
 
+def dom_conditions(polys):
+    """definedness conditions of a family of polynomials: ("nz", q) for every division by q (negative exponent or
+    inv atom), ("nn", q) for every sqrt(q); nested atom arguments included"""
+    out, seen = [], set()
+
+    def add(kind, q):
+        k = (kind, q.key())
+        if k not in seen:
+            seen.add(k)
+            out.append((kind, q))
+
+    done = set()
+
+    def walk(p):
+        for m in p.terms:
+            for (i, e) in m:
+                a = _ATOM_LIST[i]
+                if e < 0:
+                    add("nz", Poly.of_atom(a))
+                if i in done:
+                    continue
+                done.add(i)
+                k = a.key
+                if k[0] == "fn":
+                    args = atom_args(a)
+                    if k[1] == "inv":
+                        add("nz", args[0])
+                    elif k[1] in ("sqrt", "log"):
+                        add("nn", args[0])
+                    for q in args:
+                        walk(q)
+                elif k[0] == "app":
+                    for q in atom_args(a):
+                        walk(q)
+    for p in polys:
+        walk(p)
+    return out
+
+
+def norm_cond(kind, q):
+    """normal form used to match conditions up to a constant factor"""
+    q = as_poly(q)
+    if q.is_zero() or q.is_const():
+        return (kind, q.key())
+    lead = q.key()[0][1]
+    f = abs(lead) if kind == "nn" else lead
+    return (kind, (q * Poly.const(1 / f)).key())
+
+
 # ------------------------------------------------------------------ fn atoms
 
 def fn(op, *args, idem=None):
